@@ -160,6 +160,11 @@ def step (s : Sys) (toks : List String) : Sys × String :=
   match toks with
   | ["cfg", a, b, c, st] =>
     withDump { maxOp := optNat a, starv := optNat b, prog := optNat c, strategy := parseStrategy st } "ok"
+  -- public attributes re-assigned on a live system: the watchdog's own settings are read at every check …
+  | ["setwd", a, b, c, st] =>
+    withDump { s with maxOp := optNat a, starv := optNat b, prog := optNat c, strategy := parseStrategy st } "ok"
+  -- … the CoordinationSystem's timeout fields are read once, in `__post_init__`: assigning them later changes nothing
+  | ["setsys", _, _, _] => withDump s "ok"
   | ["res", r, p] =>
     let r := natD r
     if (s.locks r).isSome then withDump s "dup" else withDump (s.register r (boolOf p)) "ok"
@@ -231,6 +236,33 @@ def step (s : Sys) (toks : List String) : Sys × String :=
        s!"trk:{showBool c.tracked} {showExec c.coord adv (tokHead val) op reqL}")
       (execTags c.coord ++ killedTag c.coord adv op ++
         [if c.success then "cell:ok" else if c.blockedByCoordination then "cell:blocked" else "cell:post-raise"])
+  -- search-only lines (outside the property's quantifier: the model has no such operation and says so)
+  | "nest" :: _ => (s, "search-only")
   | _ => (s, "bad-op")
+
+/-! ### several systems alive at the same time
+
+`use k` parks the current `CoordinationSystem` and continues with the one in slot `k` (a fresh one when the slot is
+empty); `cfg` replaces the system in the current slot.  The systems share nothing but the virtual clock. -/
+
+structure Multi where
+  cur : Sys := {}
+  slot : Nat := 0
+  parked : List (Nat × Sys) := []
+
+def stepMulti (m : Multi) (toks : List String) : Multi × String :=
+  match toks with
+  | ["use", k] =>
+    let k := natD k
+    if k == m.slot then (m, (withDump m.cur "ok").2)
+    else
+      let parked := (m.slot, m.cur) :: m.parked
+      let nxt : Sys := match parked.find? (fun e => e.1 == k) with
+        | some e => { e.2 with now := m.cur.now }
+        | none => { now := m.cur.now }
+      ({ cur := nxt, slot := k, parked := parked.filter (fun e => e.1 != k) }, (withDump nxt "ok").2)
+  | _ =>
+    let r := step m.cur toks
+    ({ m with cur := r.1 }, r.2)
 
 end Operon.Coord
